@@ -28,7 +28,7 @@ META = {
               "templates x 7 prefixes (0..2 newlines, tabs, a comment, non-ASCII text) x 3 file placements (quick: seeded subset of 150)",
     "outside": ["'every planting position' is an enumerated set of prefixes (the text is concrete)", "GraphicalHandler's rendering (covered "
                 "for crashes by C07/C08, not for geometry)"],
-    "structure": "fault template x prefix x placement",
+    "structure": "fault template (31) x prefix x placement (quick: every fault in every placement + seeded rest); the faulty statement as last line with / without final newline; two files with one spelling in different directories",
     "stubs": ["included files are real files under /verif/build/aux/c17"],
 }
 
